@@ -40,6 +40,17 @@ SIGS = {
     'copy': ['int', 'int'],
     'image': ['int', 'int', 'str', 'dnn', 'str', 'lint', 'bool'],
     'preimage': ['int', 'int', 'str', 'dnn', 'str', 'lint', 'bool'],
+    'count': ['int', 'oint'],
+    'pick_iter': ['int', 'olint'],
+    'pick': ['int', 'olint'],
+    'undeclare': ['lint'],
+    'descendants': ['lint'],
+    'succ': ['int'],
+    'level_of_var': ['int'],
+    'var_at_level': ['int'],
+    'len': [],
+    'contains': ['int'],
+    'shutdown': [],
     'support': ['int'],
     'is_essential': ['int', 'int'],
 }
